@@ -323,6 +323,11 @@ impl cucumber::World for TW {
             (idx, h.plan.gates.gated("world"), h.plan.world(idx))
         });
         log(LogKind::NewEnter(idx));
+        if outcome == WOutcome::Panic && HS.with(|h| h.borrow().plan.sync_panics) {
+            // (the constructor panics when it is called, before there is a future to poll)
+            log(LogKind::NewExit(idx, outcome));
+            std::panic::panic_any(format!("world-panic#{idx}"));
+        }
         async move {
             if gated {
                 gate(format!("world#{idx}")).await;
